@@ -87,7 +87,7 @@ CLAIMED = {
         "over every history of injections; two different raw operands never share a node (given hash and repr injectivity). "
         "Expressions over real channels/nodes with operands from a pool are compared with the model, values with the python "
         "operator itself.",
-   design="7/C18", technique="Coq proofs (finite table by vm_compute+forallb_forall, induction over injection histories) + differential correspondence + oracle",
+   design="7/C18", technique="Coq proofs (finite table by vm_compute+forallb_forall, induction over injection histories) + the injection label function REGENERATED from injection.py on every run and proved equal to the model's inj_label (translator tie) + differential correspondence + oracle",
    note="CPython operator semantics enter as per-case tables computed by the real interpreter; hash/repr injectivity are explicit "
         "hypotheses. General distinctness is partial: labels are joined with '_' without escaping (known finding C18-underscore-framing). "
         "Full/partial split holds for the code after fix ee32d7a (S17 and slice/autorun defects)."),
